@@ -94,6 +94,11 @@ fn random_scenario(seed: u64, run: u64) -> (Scenario, Vec<Abs>) {
                     };
                     if k == "garbage" && !(framing == "chunked" && back == "h1") && off >= head { off = rng.random_range(0..head); }
                     if k == "rststream" { off = boundaries[rng.random_range(0..boundaries.len())]; }
+                    // on an h2c connection bytes that fall inside a frame payload are that payload (a header value,
+                    // body data), whatever they are: "garbage" is only garbage inside a frame header or between frames
+                    if k == "garbage" && back == "h2" {
+                        off = if rng.random_bool(0.5) { rng.random_range(1..9) } else { boundaries[rng.random_range(0..boundaries.len())] };
+                    }
                     let at = if off == 0 { "prehdr" } else if off < head { "midhdr" } else if off == head { "posthdr" } else { "midbody" };
                     spec.fault = k.into(); spec.at = at.into(); spec.off = Some(off);
                     a.fault = k.into(); a.at = at.into();
@@ -118,6 +123,14 @@ fn random_scenario(seed: u64, run: u64) -> (Scenario, Vec<Abs>) {
     }
     // "connstall" only means something when another request shares the connection; alone it is a stall
     let shared = abs.iter().filter(|a| a.route == "a").count() > 1;
+    // the scripted h2c backend serves the streams of one connection one after the other: a dripping response
+    // would delay the script of the stream behind it, which the specification (faults happen as soon as they
+    // are due) does not describe - no drip on a shared h2c connection
+    if shared && back == "h2" {
+        for (s, a) in reqs.iter_mut().zip(abs.iter_mut()) {
+            if s.route == "a" && s.fault == "drip" { s.fault = "none".into(); s.body = 2; a.pace = "fast".into(); }
+        }
+    }
     if !shared { for a in abs.iter_mut() { if a.fault == "connstall" { a.fault = "stall".into(); } } }
     let nbk = if n == 1 && reqs[0].route == "a" && rng.random_bool(0.15) { 2 } else { 1 };
     let timing = if rng.random_bool(0.3) { "ff" } else { "bf" };
